@@ -54,17 +54,42 @@ Proof. unfold Reqb; destruct (Req_EM_T a b); split; intros; try discriminate; au
   cst := Q2R |}.
 
 (** ** binary64 *)
+(** [z = m * 2^e] with [m] odd: integers whose odd part is below 2^63 (in particular every
+    numerator and denominator of [float.as_integer_ratio()], whose odd part is below 2^53 and
+    whose denominator is a power of two up to 2^1074) are converted exactly; going through
+    [Uint63.of_Z] directly would wrap modulo 2^63. *)
+Fixpoint pos_split (p : positive) : positive * nat :=
+  match p with
+  | xO q => let '(m, e) := pos_split q in (m, S e)
+  | _ => (p, 0%nat)
+  end.
+Fixpoint fpow2 (n : nat) : float :=
+  match n with 0%nat => 1%float | S n' => PrimFloat.mul 2%float (fpow2 n') end.
+Definition float_of_pos (p : positive) : float :=
+  let '(m, e) := pos_split p in
+  PrimFloat.mul (PrimFloat.of_uint63 (Uint63.of_Z (Zpos m))) (fpow2 e).
 Definition float_of_Z (z : Z) : float :=
   match z with
   | Z0 => 0%float
-  | Zpos _ => PrimFloat.of_uint63 (Uint63.of_Z z)
-  | Zneg p => PrimFloat.opp (PrimFloat.of_uint63 (Uint63.of_Z (Zpos p)))
+  | Zpos p => float_of_pos p
+  | Zneg p => PrimFloat.opp (float_of_pos p)
   end.
-(** exact whenever numerator and denominator are exactly representable and the
-    quotient is (always the case for [float.as_integer_ratio()] of a finite
-    binary64 whose numerator is below 2^63: the denominator is a power of two) *)
+(** exact whenever the value is a binary64 number: the numerator is converted exactly, the
+    denominator [2^k] is divided out in steps of at most 2^1000 so that no intermediate power
+    overflows (a single quotient by 2^1074 would divide by infinity). *)
+Fixpoint fdiv_pow2 (x : float) (k : nat) (fuel : nat) : float :=
+  match fuel with
+  | 0%nat => PrimFloat.div x (fpow2 k)
+  | S fuel' =>
+    if Nat.leb k 1000 then PrimFloat.div x (fpow2 k)
+    else fdiv_pow2 (PrimFloat.div x (fpow2 1000)) (k - 1000) fuel'
+  end.
 Definition float_of_Q (q : Q) : float :=
-  PrimFloat.div (float_of_Z (Qnum q)) (float_of_Z (Zpos (Qden q))).
+  let '(m, e) := pos_split (Qden q) in
+  match m with
+  | xH => fdiv_pow2 (float_of_Z (Qnum q)) e 2
+  | _ => PrimFloat.div (float_of_Z (Qnum q)) (float_of_pos (Qden q))
+  end.
 
 #[global] Instance FOps : Ops float := {|
   zero := 0%float; one := 1%float;
